@@ -136,6 +136,22 @@ pub fn begin_window() {
     });
 }
 
+/// Arms one fault for the current window.
+pub fn arm(class: &str, k: i64) {
+    if class.is_empty() {
+        return;
+    }
+    with(|e| match class {
+        "hash" => e.panic_hash_at = k as u32,
+        "eq" => e.panic_eq_at = k as u32,
+        "clone" => e.panic_clone_at = k as u32,
+        "drop" => e.panic_drop_at = k as u32,
+        "bh_clone" => e.panic_bh_clone_at = k as u32,
+        "alloc" => e.alloc_fail_at = k as u32,
+        _ => {}
+    });
+}
+
 pub fn disarm() {
     with(|e| {
         e.panic_hash_at = 0;
@@ -411,6 +427,49 @@ small_key!(K1, K1Q, u8, write_u8);
 small_key!(K2, K2Q, u16, write_u16);
 small_key!(K4, K4Q, u32, write_u32);
 small_key!(K8, K8Q, u64, write_u64);
+
+macro_rules! array_key {
+    ($name:ident, $n:expr) => {
+        /// Untracked byte-array key of an odd size (exercises layout padding of small tables).
+        #[derive(Clone, Copy, PartialEq, Eq, Debug)]
+        pub struct $name(pub [u8; $n]);
+        impl Hash for $name {
+            fn hash<H: Hasher>(&self, state: &mut H) {
+                state.write_u8(self.0[0]);
+            }
+        }
+        impl From<&$name> for $name {
+            fn from(q: &$name) -> $name {
+                *q
+            }
+        }
+        impl KeyT for $name {
+            type Q = $name;
+            const TRACKED: bool = false;
+            fn make(class: u32) -> $name {
+                let mut a = [0x5au8; $n];
+                a[0] = class as u8;
+                $name(a)
+            }
+            fn class(&self) -> u32 {
+                self.0[0] as u32
+            }
+            fn id(&self) -> u32 {
+                0
+            }
+            fn q(class: u32) -> $name {
+                Self::make(class)
+            }
+            fn from_q(q: &$name) -> $name {
+                *q
+            }
+        }
+    };
+}
+array_key!(K3, 3);
+array_key!(K5, 5);
+array_key!(K6, 6);
+array_key!(K7, 7);
 
 pub trait Pad: Copy + Default + 'static {}
 impl Pad for () {}
